@@ -53,14 +53,15 @@ def _destination(dest: str, relative: str) -> str:
     Returns
     -------
     str
-        the joined path, or None if it would lie outside the destination
+        the resolved path, or None if it would lie outside the destination
     """
     base = os.path.realpath(dest)
     target = os.path.realpath(os.path.join(base, str(relative)))
     if target != base and not target.startswith(base + os.sep):
         logger.warning("Ignoring path outside of destination: %s", relative)
         return None
-    return os.path.join(dest, str(relative))
+    # the resolved form: no ".." element is left for copypath to walk through
+    return target
 
 
 class PathNode:
